@@ -248,6 +248,13 @@ func cloneVal(v any) any {
 		c := ordered.NewMap[string, any](t.Len())
 		t.Range(func(k string, v any) error { c.Set(k, cloneVal(v)); return nil })
 		return c
+	case *ordered.MapSS:
+		if t == nil {
+			return t
+		}
+		c := ordered.NewMap[string, string](t.Len())
+		t.Range(func(k, v string) error { c.Set(k, v); return nil })
+		return c
 	}
 	return v
 }
@@ -423,9 +430,21 @@ func bigKeys() []string {
 func genValue(t *rapid.T, depth int) any {
 	n := 6
 	if depth < 2 {
-		n = 8
+		n = 9
 	}
 	switch rapid.IntRange(0, n-1).Draw(t, "vkind") {
+	case 8:
+		// a string-valued ordered map as a value (what an env block nested in a generic map is)
+		l := rapid.IntRange(0, 3).Draw(t, "sslen")
+		m := ordered.NewMap[string, string](l)
+		for i := 0; i < l; i++ {
+			m.Set(rapid.SampledFrom(smallKeys).Draw(t, "ssk"), rapid.SampledFrom([]string{"", "x", "$X"}).Draw(t, "ssv"))
+		}
+		if m.Len() >= 2 && rapid.Bool().Draw(t, "sshistory") {
+			m.Set("\x00gone", "")
+			m.Delete("\x00gone")
+		}
+		return m
 	case 0:
 		return rapid.IntRange(-3, 3).Draw(t, "int")
 	case 1:
@@ -668,7 +687,63 @@ func TestPropEqualPairs(t *testing.T) {
 			return real, m, hist, tomb
 		}
 		r1, m1, h1, t1 := run("a")
-		r2, m2, h2, t2 := run("b")
+		var r2 *ordered.MapSA
+		var m2 *model
+		var h2 []op
+		var t2 bool
+		mirrored := rapid.IntRange(0, 1).Draw(t, "mirror") == 1
+		if !mirrored {
+			r2, m2, h2, t2 = run("b")
+		} else {
+			// a second route to the content the first history reached: the same keys set in the same order,
+			// with throw-away keys set in between and removed (or renamed onto the wanted key) at other
+			// points, so both maps hold tombstones - usually in different slots, often in equally many
+			r2, m2 = startMap(rapid.IntRange(0, 3).Draw(t, "bstart")), &model{}
+			do := func(o op) {
+				h2 = append(h2, o)
+				if err := apply(r2, m2, o); err != nil {
+					t.Fatalf("%v\nhistory: %s", err, showOps(h2))
+				}
+			}
+			var junk []string
+			lead := rapid.IntRange(0, 2).Draw(t, "lead")
+			for i := 0; i < lead; i++ {
+				j := fmt.Sprintf("lead%d", i)
+				do(op{Kind: "set", K: j, V: 0})
+				junk = append(junk, j)
+			}
+			for i, p := range m1.ps {
+				j := fmt.Sprintf("j%d", i)
+				switch rapid.IntRange(0, 4).Draw(t, "route") {
+				case 0, 1:
+					do(op{Kind: "set", K: p.K, V: p.V})
+				case 2:
+					do(op{Kind: "set", K: j, V: 0})
+					junk = append(junk, j)
+					do(op{Kind: "set", K: p.K, V: p.V})
+				case 3:
+					do(op{Kind: "set", K: j, V: 0})
+					do(op{Kind: "rep", K: j, K2: p.K, V: p.V})
+				default:
+					do(op{Kind: "set", K: p.K, V: "other"})
+					do(op{Kind: "set", K: p.K, V: p.V})
+				}
+			}
+			trail := rapid.IntRange(0, 2).Draw(t, "trail")
+			for i := 0; i < trail; i++ {
+				j := fmt.Sprintf("trail%d", i)
+				do(op{Kind: "set", K: j, V: 0})
+				junk = append(junk, j)
+			}
+			for _, j := range rapid.Permutation(junk).Draw(t, "junkorder") {
+				do(op{Kind: "del", K: j})
+				t2 = true
+			}
+			if rapid.IntRange(0, 5).Draw(t, "spoil") == 0 && len(m1.ps) > 0 {
+				// and sometimes one last difference
+				do(op{Kind: "set", K: m1.ps[0].K, V: "spoiled"})
+			}
+		}
 		same := len(m1.ps) == len(m2.ps)
 		if same {
 			for i := range m1.ps {
@@ -685,7 +760,7 @@ func TestPropEqualPairs(t *testing.T) {
 			t.Fatalf("Equal = %v / %v, models equal = %v\nhistory A: %s\nhistory B: %s", e12, e21, same, showOps(h1), showOps(h2))
 		}
 		nt := t1 && t2 && len(m1.ps) == len(m2.ps)
-		recPairs.Case(ev.Hash(showOps(h1), showOps(h2)), nt, fmt.Sprintf("equal=%v", same))
+		recPairs.Case(ev.Hash(showOps(h1), showOps(h2)), nt, fmt.Sprintf("equal=%v", same), fmt.Sprintf("second-route-to-the-same-content=%v", mirrored))
 		recPairs.MaybeSample(nt, func() any { return map[string]any{"a": showOps(h1), "b": showOps(h2), "equal": same} })
 	})
 }
